@@ -517,7 +517,7 @@ func runC09(r *mc.Run) {
 		depth, faultDepth = 4, 2
 		r.SetBudget(12 * 60 * 1e9)
 	} else {
-		r.SetBudget(170 * 1e9)
+		r.SetBudget(300 * 1e9)
 	}
 	r.Bounds["depth_blocks"] = depth
 	r.Bounds["fault_enumeration_history_depth"] = faultDepth
